@@ -10,7 +10,7 @@ from . import core
 from . import format_common as F
 from .core import Check, exc_code, h63_list
 
-IMPORTS = ["Base.Prelude", "Psd.Codec", "Psd.Model", "Psd.Corr"]
+IMPORTS = ["Base.Prelude", "Psd.Codec", "Psd.Model", "Psd.Leaf", "Psd.Descriptor", "Psd.Effects", "Psd.Corr"]
 KINDS = ["header", "cmd", "res", "resources", "tb", "tbs", "mask", "ranges", "rec", "li", "glmi", "lami", "img", "psd"]
 FIXTURES = os.path.join(core.REPO, "tests", "psd_files")
 
@@ -148,6 +148,77 @@ def gen_cases(ck, per_kind, psd_extra):
             yield (kind, {"version": v, "padding": pad, "encoding": enc}, d), tag
 
 
+def jdeep(o):
+    if isinstance(o, (bytes, bytearray)):
+        return list(o)
+    if isinstance(o, (list, tuple)):
+        return [jdeep(x) for x in o]
+    return o
+
+
+def dblock_outcome(ck, d, two, pad, terms):
+    """DescriptorBlock(version=16) / DescriptorBlock2(version=1, data_version=16) around a Descriptor body"""
+    from psd_tools.psd import descriptor as D
+
+    body = F.obj_dval(d)
+    kw = dict(items=list(body.items()), name=body.name, classID=body.classID)
+    blk = D.DescriptorBlock2(version=1, data_version=16, **kw) if two else D.DescriptorBlock(version=16, **kw)
+    t0 = set(D._TERMS)
+    f = io.BytesIO()
+    try:
+        n = blk.write(f, padding=pad)
+    except Exception as e:
+        return [exc_code(e)]
+    b = f.getvalue()
+    out = [0, n, h63_list(0, list(b))]
+    try:
+        y = type(blk).frombytes(b)
+    except Exception as e:
+        D._TERMS.clear()
+        D._TERMS.update(t0)
+        return out + [exc_code(e), int(F.wf_dval(d))]
+    grown = len(D._TERMS) - len(t0)
+    D._TERMS.clear()
+    D._TERMS.update(t0)
+    head = [2, y.version, y.data_version] if two else [1, y.version]
+    want = ([2, 1, 16] if two else [1, 16]) + F.c_dval_d(d)
+    cy = head + F.c_dval_o_as_desc(y)
+    if F.wf_dval(d) and not (y == blk and cy == want and y.tobytes(padding=pad) == b and n == len(b)):
+        ck.fail("descriptor-block-roundtrip", {"dval": jdeep(d), "padding": pad, "two": two}, "re-read != original or re-write differs",
+                "X.frombytes(x.tobytes()) == x")
+    return out + [0, h63_list(0, cy), int(cy == want), grown, int(F.wf_dval(d))]
+
+
+def jleaf(l):
+    return [list(x) if isinstance(x, (bytes, bytearray)) else x for x in l]
+
+
+def typed_block_outcome(ck, l, obj, v, pad, sg, key):
+    """TaggedBlock(signature, key, data=<payload object>): write, re-read through TYPES, compare"""
+    from psd_tools.psd.tagged_blocks import TaggedBlock
+
+    t = TaggedBlock(F.cc4(sg), F.key_obj(key), obj)
+    f = io.BytesIO()
+    try:
+        n = t.write(f, v, pad)
+    except Exception as e:
+        return [exc_code(e)]
+    b = f.getvalue()
+    out = [0, n, h63_list(0, list(b))]
+    try:
+        y = TaggedBlock.frombytes(b, v, pad)
+    except Exception as e:
+        return out + [exc_code(e)]
+    if y is None:
+        return out + [0, 0]
+    cy = [F.fcc(y.signature), F.key_int(y.key)] + F.c_leaf_o(y.data)
+    same = cy == [sg, key] + F.c_leaf_o(obj)
+    if F.wf_leaf(l) and not (y == t and y.tobytes(v, pad) == b):
+        ck.fail("typed-block-roundtrip:" + l[0], {"leaf": jleaf(l), "version": v, "padding": pad, "key": key},
+                "re-read != original or re-write differs", "TaggedBlock.frombytes(t.tobytes()) == t")
+    return out + [0, h63_list(0, cy), int(same)]
+
+
 def oracle_element(ck, case, r, tag):
     """the property itself, on the implementation, independent of the model"""
     kind = case[0]
@@ -263,6 +334,12 @@ CONSTRUCTED_SKIP = {
 }
 
 
+# fields whose value decides which OTHER fields must be present (version / kind switches): changing them alone
+# yields an object whose parts contradict each other, not a document
+DEPENDENT_FIELDS = {("linked_layer.LinkedLayer", "version"),   # >= 5 / 6 / 7 require child_id / mod_time / lock_state
+                    ("linked_layer.LinkedLayer", "kind")}      # EXTERNAL / DATA require linked_file / data
+
+
 def constructed_leaves(ck):
     """instances built without any reader: defaults and field values drawn from the validators"""
     import attr
@@ -289,28 +366,30 @@ def constructed_leaves(ck):
         except Exception:
             continue
         yield ("default", x)
-        fields = attr.fields(c)
-        for _ in range(3 if ck.tier == "quick" else 12):
-            kw = {}
-            for a in fields:
-                v = a.validator
-                opts = getattr(v, "options", None)
-                nm = a.name.lstrip("_")
-                if opts is not None:
-                    try:
-                        kw[nm] = rng.choice(sorted(opts, key=repr))
-                    except Exception:
-                        pass
-                elif hasattr(v, "minimum"):
-                    kw[nm] = rng.choice([v.minimum, v.maximum])
-                elif a.type is bool:
-                    kw[nm] = rng.random() < 0.5
-            if not kw:
-                break
-            try:
-                yield ("validators", c(**kw))
-            except Exception:
+        # one field at a time, every value its validator admits (deterministic, exhaustive)
+        cname = c.__module__.split(".")[-1] + "." + c.__name__
+        for a in attr.fields(c):
+            v = a.validator
+            nm = a.name.lstrip("_")
+            if (cname, nm) in DEPENDENT_FIELDS:
                 continue
+            opts = getattr(v, "options", None)
+            if opts is not None:
+                try:
+                    vals = sorted(opts, key=repr)
+                except Exception:
+                    vals = []
+            elif hasattr(v, "minimum"):
+                vals = [v.minimum, v.maximum]
+            elif a.type is bool:
+                vals = [False, True]
+            else:
+                continue
+            for val in vals[:40]:
+                try:
+                    yield ("field:%s=%r" % (nm, val), c(**{nm: val}))
+                except Exception:
+                    continue
 
 
 def special_leaves():
@@ -381,6 +460,146 @@ def run():
         ck.notes.append("model/implementation differ on %s (%s): impl %r" % (cases[i][0][0], metas[i], cases[i][1]))
         json.dump(jcase(cases[i][0]), open(os.path.join(ck.dir, "mismatch_%d.json" % i), "w"))
 
+    # ---- (a2) Stage 2: modelled leaf payload classes, alone and inside a TaggedBlock
+    rng = ck.rng
+    lt = F.leaf_tables()
+    try:
+        ck.coq_eval("Gen_LeafTables", "From Coq Require Import ZArith List.\nImport ListNotations.\nOpen Scope Z_scope.\n" +
+                    F.gen_leaf_tables_v(lt), ["Psd.Model", "Psd.Leaf"], timeout=300)
+        ck.obligations.append(("generated-leaf-tables-agree", True, ""))
+    except Exception as e:
+        ck.obligations.append(("generated-leaf-tables-agree", False, str(e)[-500:]))
+    lcases, tcases = [], []
+    lkeys = F.leaf_keys()
+    for i in range(6000 if thorough else 1200):
+        l = F.g_leaf(rng)
+        pad = [1, 2, 4][i % 3]
+        out, info = F.run_leaf(l, pad, exc_code)
+        if out is None:
+            ck.count("leaf-not-constructible:" + l[0])
+            continue
+        lcases.append(((pad, l), out))
+        ck.count("leaf:" + l[0])
+        if info["stage"] == "write":
+            continue
+        ck.nontriv(("leaf", l[0], h63_list(0, list(info["bytes"]))))
+        if info["written"] != len(info["bytes"]):
+            ck.fail("written-count-leaf:" + l[0], {"leaf": jleaf(l), "padding": pad}, info["written"], len(info["bytes"]))
+        if F.wf_leaf(l):
+            if info["stage"] == "read" or not info["eq"]:
+                ck.fail("leaf-roundtrip:" + l[0], {"leaf": jleaf(l), "padding": pad},
+                        "raised %r" % info["err"] if info["stage"] else "re-read != original", "X.frombytes(x.tobytes()) == x")
+            elif not info["rewrite_same"]:
+                ck.fail("leaf-rewrite:" + l[0], {"leaf": jleaf(l), "padding": pad}, "re-written bytes differ", "identical bytes")
+        # the same payload as the data of a TaggedBlock registered for its class
+        code = F.LEAF_CODE[l[0]]
+        keys = [k for k, cn in lkeys.get(code, []) if (cn == "ProtectedSetting") == (l[0] == "protected")]
+        if keys and info["stage"] is None and i % 2 == 0:
+            key = keys[i % len(keys)]
+            v = [1, 2][(i // 2) % 2]
+            sg = [F.SIG_8BIM, F.SIG_8B64][(i // 4) % 2]
+            to = typed_block_outcome(ck, l, info["obj"], v, pad, sg, key)
+            if to is not None:
+                tcases.append(((v, pad, sg, key, l), to))
+    bad = ck.correspond("leaves", "leaf_outcome", IMPORTS, lcases, lambda a: "(%d, %s)" % (a[0], F.coq_leaf(a[1])), chunk=300)
+    for i in bad[:5]:
+        ck.notes.append("leaf model/implementation differ on %r: impl %r" % (lcases[i][0], lcases[i][1]))
+    bad = ck.correspond("typed_blocks", "typed_outcome", IMPORTS, tcases,
+                        lambda a: "(%d, %d, %d, %d, %s)" % (a[0], a[1], a[2], a[3], F.coq_leaf(a[4])), chunk=300)
+    for i in bad[:5]:
+        ck.notes.append("typed block model/implementation differ on %r: impl %r" % (tcases[i][0], tcases[i][1]))
+
+    # ---- (a3) Stage 2: the descriptor family, with the live _TERMS as explicit state
+    from psd_tools.psd import descriptor as D
+
+    terms, units = F.descriptor_env()
+    cu, ct = F.coq_env(terms, units)
+    ostypes = sorted(F.fcc(o.value) for o in D.TYPES)
+    try:
+        ck.coq_eval("Gen_OSTypes", "From Coq Require Import ZArith List.\nImport ListNotations.\nOpen Scope Z_scope.\n"
+                    "Lemma gen_ostypes_agree : %s = model_ostypes. Proof. vm_compute. reflexivity. Qed.\n"
+                    % ("[" + ";".join("(%d)%%Z" % x for x in ostypes) + "]"), ["Psd.Model", "Psd.Descriptor"], timeout=300)
+        ck.obligations.append(("generated-ostypes-agree", True, ""))
+    except Exception as e:
+        ck.obligations.append(("generated-ostypes-agree", False, str(e)[-500:]))
+    if any(len(t) != 4 for t in terms):
+        ck.obligations.append(("terms-are-4-byte-codes", False, "descriptor._TERMS holds a key that is not 4 bytes long"))
+    dcases, bcases = [], []
+    for i in range(4000 if thorough else 700):
+        d = F.g_dval(rng, terms, units)
+        out, info = F.run_dval(d, exc_code)
+        if out is None:
+            ck.count("dval-not-constructible")
+            continue
+        dcases.append((d, out))
+        ck.count("dval:" + d[0])
+        if info["stage"] == "write":
+            continue
+        ck.nontriv(("dval", h63_list(0, list(info["bytes"]))))
+        if info["written"] != len(info["bytes"]):
+            ck.fail("written-count-descriptor", {"dval": jdeep(d)}, info["written"], len(info["bytes"]))
+        if F.wf_dval(d):
+            if info["stage"] == "read" or not (info["eq"] and info["same_canon"]):
+                ck.fail("descriptor-roundtrip", {"dval": jdeep(d)},
+                        "raised %r" % info["err"] if info["stage"] else "re-read != original", "X.frombytes(x.tobytes()) == x")
+            elif not info["rewrite_same"]:
+                ck.fail("descriptor-rewrite", {"dval": jdeep(d)}, "re-written bytes differ", "identical bytes")
+            elif info["grown"]:
+                ck.fail("descriptor-terms-grow", {"dval": jdeep(d)}, info["grown"], "reading what was written adds no term")
+        # the same value as the body of a DescriptorBlock / DescriptorBlock2
+        if d[0] == "desc" and d[1] == F.OSC["Objc"] and info["stage"] is None:
+            pad = [1, 2, 4][i % 3]
+            two = bool(i % 2)
+            bo = dblock_outcome(ck, d, two, pad, terms)
+            if bo is not None:
+                bcases.append(((pad, two, d), bo))
+    fn = "let units := %s in let terms := %s in dval_outcome units terms" % (cu, ct)
+    bad = ck.correspond("descriptors", fn, IMPORTS, dcases, F.coq_dval, chunk=80)
+    for i in bad[:5]:
+        ck.notes.append("descriptor model/implementation differ on %r: impl %r" % (dcases[i][0], dcases[i][1]))
+    fn = "let units := %s in let terms := %s in dblock_outcome units terms" % (cu, ct)
+    blit = lambda a: "(%d, %s)" % (a[0], ("(DBlock2 1 16 %s)" if a[1] else "(DBlock 16 %s)") % F.coq_dval(a[2]))
+    bad = ck.correspond("descriptor_blocks", fn, IMPORTS, bcases, blit, chunk=80)
+    for i in bad[:5]:
+        ck.notes.append("descriptor block model/implementation differ on %r" % (bcases[i][0],))
+
+    # ---- (a4) Stage 2: EffectsLayer and its effect records
+    from psd_tools.psd.effects_layer import EffectsLayer
+
+    kind_of_class = {"CommonStateInfo": 1, "ShadowInfo": 2, "OuterGlowInfo": 3, "InnerGlowInfo": 4, "BevelInfo": 5, "SolidFillInfo": 6}
+    et = sorted((F.fcc(k.value), kind_of_class[c.__name__]) for k, c in EffectsLayer.EFFECT_TYPES.items())
+    try:
+        ck.coq_eval("Gen_EffectTypes", "From Coq Require Import ZArith List.\nImport ListNotations.\nOpen Scope Z_scope.\n"
+                    "Lemma gen_effect_types_agree : %s = model_effect_types. Proof. vm_compute. reflexivity. Qed.\n"
+                    % ("[" + ";".join("((%d)%%Z, (%d)%%Z)" % x for x in et) + "]"), ["Psd.Model", "Psd.Leaf", "Psd.Effects"], timeout=300)
+        ck.obligations.append(("generated-effect-types-agree", True, ""))
+    except Exception as e:
+        ck.obligations.append(("generated-effect-types-agree", False, str(e)[-500:]))
+    ecases = []
+    for i in range(3000 if thorough else 500):
+        l = F.g_effects(rng)
+        out, info = F.run_effects(l, exc_code)
+        if out is None:
+            ck.count("effects-not-constructible")
+            continue
+        ecases.append((l, out))
+        for _k, e in l[1]:
+            ck.count("effect:" + e[0])
+        if info["stage"] == "write":
+            continue
+        ck.nontriv(("fx", h63_list(0, list(info["bytes"]))))
+        if info["written"] != len(info["bytes"]):
+            ck.fail("written-count-effects", {"effects": jdeep(l)}, info["written"], len(info["bytes"]))
+        if F.wf_effects(l):
+            if info["stage"] == "read" or not (info["eq"] and info["same_canon"]):
+                ck.fail("effects-roundtrip", {"effects": jdeep(l)},
+                        "raised %r" % info["err"] if info["stage"] else "re-read != original", "X.frombytes(x.tobytes()) == x")
+            elif not info["rewrite_same"]:
+                ck.fail("effects-rewrite", {"effects": jdeep(l)}, "re-written bytes differ", "identical bytes")
+    bad = ck.correspond("effects", "effects_outcome", IMPORTS, ecases, F.coq_effects, chunk=120)
+    for i in bad[:5]:
+        ck.notes.append("effects layer model/implementation differ on %r: impl %r" % (ecases[i][0], ecases[i][1]))
+
     # ---- (b) fixtures: implementation reads and re-writes; the model reads the same bytes
     from psd_tools.psd import PSD
 
@@ -401,12 +620,21 @@ def run():
             first = None
             for pad in (1, 2, 4):
                 f = io.BytesIO()
-                n = d.write(f, padding=pad)
+                try:
+                    n = d.write(f, padding=pad)
+                except Exception as e:
+                    out += [exc_code(e)]
+                    ck.fail("rewrite-fixture", {"fixture": name, "padding": pad}, "write raised %r" % e, "the structure read from the file is writable")
+                    continue
                 wb = f.getvalue()
                 out += [0, n, h63_list(0, list(wb))]
                 if n != len(wb):
                     ck.fail("written-count-fixture", {"fixture": name, "padding": pad}, n, len(wb))
-                d2 = PSD.frombytes(wb)
+                try:
+                    d2 = PSD.frombytes(wb)
+                except Exception as e:
+                    ck.fail("roundtrip-fixture", {"fixture": name, "padding": pad}, "re-read raised %r" % e, "equal structure")
+                    continue
                 if d2 != d:
                     ck.fail("roundtrip-fixture", {"fixture": name, "padding": pad}, "re-read != structure read from the file", "equal")
                 elif d2.tobytes(padding=pad) != wb:
@@ -439,10 +667,59 @@ def run():
                 break
             check_leaf(ck, origin, obj, wkw, rkw, covered)
             break
+    # ---- (d) every DescriptorBlock / DescriptorBlock2 found in the fixtures, through the descriptor model
+    #      (the term set is the live one AFTER the fixtures were read: it has grown by their unknown 4-byte keys)
+    from psd_tools.psd.base import BaseElement
+
+    terms2, units2 = F.descriptor_env()
+    cu2, ct2 = F.coq_env(terms2, units2)
+    ck.count("terms-initial", len(terms))
+    ck.count("terms-after-fixtures", len(terms2))
+    fb, seen_d = [], set()
+    for pth in fixture_paths(lim_impl):
+        try:
+            doc = PSD.frombytes(open(pth, "rb").read())
+        except Exception:
+            continue
+        for x in BaseElement._traverse(doc, lambda e: isinstance(e, (D.DescriptorBlock, D.DescriptorBlock2))):
+            try:
+                dd = F.dval_of_obj(x)
+            except KeyError:
+                ck.count("fixture-descriptor:not-representable")
+                continue
+            two = isinstance(x, D.DescriptorBlock2)
+            if (two and (x.version != 1 or x.data_version != 16)) or (not two and x.version != 16):
+                continue
+            key = (two, h63_list(0, F.c_dval_d(dd)))
+            if key in seen_d or len(F.coq_dval(dd)) > 60000:
+                continue
+            seen_d.add(key)
+            if len(fb) >= (5000 if thorough else 250):
+                break
+            pad = [4, 1, 2][len(fb) % 3]
+            bo = dblock_outcome(ck, dd, two, pad, terms2)
+            if bo is not None:
+                fb.append(((pad, two, dd), bo))
+                ck.count("fixture-descriptor-block")
+    fn = "let units := %s in let terms := %s in dblock_outcome units terms" % (cu2, ct2)
+    bad = ck.correspond("fixture_descriptors", fn, IMPORTS, fb, blit, chunk=25)
+    for i in bad[:5]:
+        ck.notes.append("descriptor block from a fixture: model/implementation differ: impl %r" % (fb[i][1],))
+
     modelled = ["FileHeader", "ColorModeData", "ImageResources", "ImageResource", "LayerAndMaskInformation", "LayerInfo",
                 "LayerRecords", "LayerRecord", "ChannelInfo", "LayerFlags", "MaskData", "MaskFlags", "MaskParameters",
                 "LayerBlendingRanges", "ChannelImageData", "ChannelDataList", "ChannelData", "GlobalLayerMaskInfo",
-                "TaggedBlocks", "TaggedBlock", "ImageData", "PSD"]
+                "TaggedBlocks", "TaggedBlock", "ImageData", "PSD",
+                # stage 2 (Psd/Leaf.v)
+                "ByteElement", "IntegerElement", "ShortIntegerElement", "BooleanElement", "StringElement", "EmptyElement",
+                "Bytes", "ProtectedSetting", "SectionDividerSetting", "SheetColorSetting", "ReferencePoint",
+                "ChannelBlendingRestrictionsSetting", "Color", "FilterMask", "Byte", "Integer", "ShortInteger",
+                # descriptor family (Psd/Descriptor.v)
+                "Descriptor", "GlobalObject", "ObjectArray", "List", "Reference", "Property", "UnitFloat", "UnitFloats", "Double",
+                "Class", "Class1", "Class2", "Class3", "String", "EnumeratedReference", "Offset", "Bool", "LargeInteger",
+                "Identifier", "Index", "Enumerated", "RawData", "Alias", "Path", "Name", "DescriptorBlock", "DescriptorBlock2",
+                # effects layer (Psd/Effects.v)
+                "EffectsLayer", "CommonStateInfo", "ShadowInfo", "OuterGlowInfo", "InnerGlowInfo", "BevelInfo", "SolidFillInfo"]
     all_classes = all_element_classes()
     oracle_only = sorted(k for k in covered if k.split(".")[-1] not in modelled)
     not_covered = sorted(c for c in all_classes if c not in covered and c.split(".")[-1] not in modelled)
